@@ -547,6 +547,12 @@ func runC49(c *fw.Ctx) {
 	if !c.Thorough() {
 		kinds = kinds[:4] // kind E (three files at once, one git process per configuration) only in the thorough tier
 	}
+	// the structured spaces first: they are batched and cheap, the real-root
+	// kinds D/E below are the slow part a deadline should cut
+	c49More(c, g)
+	if os.Getenv("S13_ONLY_NEW") != "" { // development aid: only the structured spaces
+		kinds = nil
+	}
 	for _, kd := range kinds {
 		kd := kd
 		n := countOf(kd)
